@@ -138,6 +138,16 @@ def handle_events(sol_tuple, events, consts, direction, is_terminal, attributes)
         up = up | (undecided & (((g <= 0) & (g_new >= 0)) | ((g <= 0) & (g_cen >= 0)) | ((g_cen <= 0) & (g_new >= 0))))
         down = down | (undecided & (((g >= 0) & (g_new <= 0)) | ((g >= 0) & (g_cen <= 0)) | ((g_cen >= 0) & (g_new <= 0))))
 
+    # a strict sign change over the whole step fixes the direction of the crossing without sampling the interpolant at its
+    # rounding-noise level (the samples above are at most sqrt(eps)*dt away from the root; the slope of the interpolant carries
+    # noise ~eps*|y|/dt): the local samples only decide when the step ends do not (root on a boundary, several roots in the step)
+    g_prev = D.ar_numpy.stack([ev_f[idx](t_prev) for idx in range(len(ev_f))])
+    g_next = D.ar_numpy.stack([ev_f[idx](t_next) for idx in range(len(ev_f))])
+    rising = (g_prev < 0) & (g_next > 0)
+    falling = (g_prev > 0) & (g_next < 0)
+    up = (up & ~falling) | rising
+    down = (down & ~rising) | falling
+
     up = success & up
     down = success & down
     either = up | down
